@@ -287,13 +287,15 @@ def setGroups (d : Dest) (groups : List Nat) (ord : List Nat → List Nat) : Pro
 
 /-- `tc_mired.to_bytes(length=2, byteorder="little")` for the argument kinds a caller may pass -/
 def tcBytes : PyVal → PyRes (Nat × Nat)
-  | .int i => if 0 ≤ i ∧ i < 65536 then .ok (i.toNat % 256, i.toNat / 256) else .error .OverflowError
+  | .int (.ofNat n) => if n < 65536 then .ok (n % 256, n / 256) else .error .OverflowError
+  | .int (.negSucc _) => .error .OverflowError
   | .bool b => .ok (if b then 1 else 0, 0)
   | _ => .error .AttributeError
 
 /-- `DTRn(v)` : the special-command constructor checks `0 ≤ v ≤ 255` -/
 def dtrArg : PyVal → PyRes Nat
-  | .int i => if 0 ≤ i ∧ i ≤ 255 then .ok i.toNat else .error .ValueError
+  | .int (.ofNat n) => if n ≤ 255 then .ok n else .error .ValueError
+  | .int (.negSucc _) => .error .ValueError
   | .bool b => .ok (if b then 1 else 0)
   | _ => .error .ValueError
 
